@@ -351,10 +351,19 @@ int sbdf_md_copy(sbdf_metadata_head const* head, sbdf_metadata_head* out)
 		return SBDF_ERROR_METADATA_READONLY;
 	}
 
-	/* check that no items in head are in out */
+	/* check that no items in head are in out, and that head does not hold a name twice
+	   (table metadata linked by sbdf_tm_read may) */
 	for (first = head->first; first; first = first->next)
 	{
 		for (prev = out->first; prev; prev = prev->next)
+		{
+			if (!strcmp(first->name, prev->name))
+			{
+				return SBDF_ERROR_METADATA_ALREADY_EXISTS;
+			}
+		}
+
+		for (prev = head->first; prev != first; prev = prev->next)
 		{
 			if (!strcmp(first->name, prev->name))
 			{
